@@ -462,8 +462,27 @@ class G:
         self.records[n] = fields
         return n
 
+    def whole_array_assign(self):
+        """`b <- a` for two arrays of the same shape and element type — the same array included — also for array fields of records"""
+        r = self.r
+        cands = [([n], (et, tuple(map(tuple, dims)))) for n, (et, dims) in self.env.all_arrays().items()]
+        for n, t in self.env.all_vars().items():
+            if t in self.records and n not in self.protected:
+                for f in self.records[t]:
+                    if isinstance(f[1], tuple):
+                        _, et, dims = f[1]
+                        cands.append(([n, ".", f[0]], (et, tuple(map(tuple, dims)))))
+        if not cands: return False
+        src, shape = r.choice(cands)
+        same = [c for c, sh in cands if sh == shape]
+        dst = r.choice(same)
+        self.emitl(dst + ["<-"] + src)
+        self.features.add("array_copy_self" if dst == src else "array_copy")
+        return True
+
     def assign(self):
         r = self.r
+        if r.random() < 0.07 and self.whole_array_assign(): return
         targets = []
         for n, t in self.env.all_vars().items():
             if n in self.protected: continue
